@@ -464,7 +464,7 @@ class Harness:
         scn = self.scn
         for op in scn["script"]:
             o = op["op"]
-            if self.accept_done.is_set() and o in ("adopt", "adopt_burst", "execute", "new_service", "step", "seg", "end", "block", "wait_start", "sigint", "polls"):
+            if self.accept_done.is_set() and not op.get("force") and o in ("adopt", "adopt_burst", "execute", "new_service", "step", "seg", "end", "block", "wait_start", "sigint", "polls"):
                 # the runtime has ended: the rest of the behaviour cannot be played any more
                 hooks.emit("skipped", op=o)
                 continue
